@@ -157,8 +157,10 @@ def ref_trace(exe, crate, maxsteps=400000):
     out = WORK / "sess" / (Path(exe).parent.name + f".{REFTRACE_VERSION}.reftrace")
     out.parent.mkdir(parents=True, exist_ok=True)
     if not out.exists():
-        sh([str(rt), str(exe), str(out), "--ranges", ranges, "--main", f"{syms[crate + '::main'][0]:x}",
-            "--tick", f"{tick:x}", "--max", str(maxsteps)], timeout=300)
+        tmp = out.with_suffix(f".{os.getpid()}.tmp")
+        sh([str(rt), str(exe), str(tmp), "--ranges", ranges, "--main", f"{syms[crate + '::main'][0]:x}",
+            "--tick", f"{tick:x}", "--max", str(maxsteps)], timeout=600)
+        os.replace(tmp, out)            # atomic: a concurrent reader never sees a partial trace
     ents, meta = [], {}
     for o in vlib.ndjson_read(out):
         if o["ev"] == "i":
@@ -259,7 +261,7 @@ class Puppet:
 
     def tla_data(self, cands, maxcmd, maxbps, root="MC", base="Session", maxbk=3, lifecycle=None):
         lifecycle = getattr(self, "lifecycle", False) if lifecycle is None else lifecycle
-        d = WORK / "sess" / self.key
+        d = WORK / "sess" / f"{self.key}-{os.getpid()}"      # per process: two checks may run at once
         d.mkdir(parents=True, exist_ok=True)
 
         def rec(x):
@@ -306,6 +308,7 @@ def run_session(exe, script, tag, timeout=180):
     drv = vlib.cargo_build("sess")
     d = WORK / "sess" / "runs"
     d.mkdir(parents=True, exist_ok=True)
+    tag = f"{tag}-{os.getpid()}"
     sp, op = d / f"{tag}.script.json", d / f"{tag}.out.ndjson"
     sp.write_text(json.dumps(script))
     if op.exists():
